@@ -388,7 +388,7 @@ func (e *renv) runMacro(m mac, seqNo int) error {
 			gate = e.sched.Block("router.connected", 1, e.sameRouter)
 			e.heldSend[idx] = gate
 		}
-		res := e.startSend(si, 100000+seqNo)
+		res := e.startSend(si, 1000+seqNo)
 		held := e.trackDial(res, peer, gate)
 		if !held {
 			if gate != nil {
@@ -704,7 +704,7 @@ func (e *renv) finish(msgConn map[int]int) robsJSON {
 		o.Stops = append(o.Stops, waitCh(s.done, opDeadline))
 	}
 	// let the handler goroutines finish their deferred close; leaked endpoints stay open
-	deadline := time.Now().Add(300 * time.Millisecond)
+	deadline := time.Now().Add(150 * time.Millisecond)
 	for time.Now().Before(deadline) {
 		all := true
 		for _, c := range e.conns {
@@ -732,7 +732,7 @@ func (e *renv) finish(msgConn map[int]int) robsJSON {
 	for _, d := range e.dispStart {
 		c, ok := msgConn[d.msg]
 		if !ok {
-			c = 9999
+			c = 999
 		}
 		o.Disp = append(o.Disp, [2]int{c, d.msg})
 		if firstRet != 0 && d.stamp > firstRet {
